@@ -38,7 +38,7 @@ type H struct{}
 func (H) ID() string { return "C17" }
 
 // Faults implements core.Harness.
-func (H) Faults() core.FaultMenu { return core.FaultMenu{MaxSteps: 2000, PCTSteps: 60} }
+func (H) Faults() core.FaultMenu { return core.FaultMenu{MaxSteps: 8000, PCTSteps: 60} }
 
 // Decode implements core.Harness.
 func (H) Decode(b []byte) (any, error) {
